@@ -158,6 +158,8 @@ func buildTable() *Node {
 			cont("cbc", member("top", "c2"), leaf("x", "string")),
 			leaflist("cl", "string", member("top", "c3")),
 			leaf("ca-x", "string"), leaf("ca_x", "string"), leaf("other", "string"),
+			cont("cb-x", leaf("v", "string")),
+			list("cl-more", "k", leaf("k", "string"), leaf("v", "string")),
 			list("ce", "name",
 				leaf("name", "string"),
 				leaf("ia", "string", member("inl", "i1")),
